@@ -54,9 +54,59 @@ type proxy struct {
 	cancel        context.CancelFunc
 	keep          bool
 	copies        []*memory.Database
+	// fault injection: the faultAtWrite-th write attempt / faultAtRead-th read (Get, Has, NewIterator,
+	// iterator Value) returns errInjected, once
+	faultAtWrite, faultAtRead int
+	fwrites, freads           int
+	faulted                   bool
+	curMig                    int // migration whose Migrate is running (-1 none), for diagnostics
+	faultMig                  int
 }
 
-func newProxy(m *memory.Database, keep bool) *proxy { return &proxy{KeyValueStore: m, mem: m, keep: keep} }
+var errInjected = errors.New("verif: injected I/O error")
+
+func (p *proxy) failWrite() bool {
+	p.mu.Lock()
+	defer p.mu.Unlock()
+	p.fwrites++
+	if p.fwrites == p.faultAtWrite && !p.faulted {
+		p.faulted, p.faultMig = true, p.curMig
+		return true
+	}
+	return false
+}
+func (p *proxy) failRead() bool {
+	p.mu.Lock()
+	defer p.mu.Unlock()
+	p.freads++
+	if p.freads == p.faultAtRead && !p.faulted {
+		p.faulted, p.faultMig = true, p.curMig
+		return true
+	}
+	return false
+}
+
+type piter struct {
+	db.Iterator
+	p *proxy
+}
+
+func (it *piter) Value() ([]byte, error) {
+	if it.p.failRead() {
+		return nil, errInjected
+	}
+	return it.Iterator.Value()
+}
+func (it *piter) UncopiedValue() ([]byte, error) {
+	if it.p.failRead() {
+		return nil, errInjected
+	}
+	return it.Iterator.UncopiedValue()
+}
+
+func newProxy(m *memory.Database, keep bool) *proxy {
+	return &proxy{KeyValueStore: m, mem: m, keep: keep, curMig: -1, faultMig: -1}
+}
 
 func (p *proxy) onRead() {
 	p.mu.Lock()
@@ -77,13 +127,35 @@ func (p *proxy) onWrite() {
 	}
 	p.mu.Unlock()
 }
-func (p *proxy) Get(k []byte, cb func([]byte) error) error { p.onRead(); return p.KeyValueStore.Get(k, cb) }
-func (p *proxy) Has(k []byte) (bool, error)               { p.onRead(); return p.KeyValueStore.Has(k) }
+func (p *proxy) Get(k []byte, cb func([]byte) error) error {
+	p.onRead()
+	if p.failRead() {
+		return errInjected
+	}
+	return p.KeyValueStore.Get(k, cb)
+}
+func (p *proxy) Has(k []byte) (bool, error) {
+	p.onRead()
+	if p.failRead() {
+		return false, errInjected
+	}
+	return p.KeyValueStore.Has(k)
+}
 func (p *proxy) NewIterator(pre []byte, ub bool) (db.Iterator, error) {
 	p.onRead()
-	return p.KeyValueStore.NewIterator(pre, ub)
+	if p.failRead() {
+		return nil, errInjected
+	}
+	it, err := p.KeyValueStore.NewIterator(pre, ub)
+	if err != nil {
+		return nil, err
+	}
+	return &piter{it, p}, nil
 }
 func (p *proxy) Put(k, v []byte) error {
+	if p.failWrite() {
+		return errInjected
+	}
 	err := p.KeyValueStore.Put(k, v)
 	if err == nil {
 		p.onWrite()
@@ -91,6 +163,9 @@ func (p *proxy) Put(k, v []byte) error {
 	return err
 }
 func (p *proxy) Delete(k []byte) error {
+	if p.failWrite() {
+		return errInjected
+	}
 	err := p.KeyValueStore.Delete(k)
 	if err == nil {
 		p.onWrite()
@@ -98,6 +173,9 @@ func (p *proxy) Delete(k []byte) error {
 	return err
 }
 func (p *proxy) DeleteRange(a, b []byte) error {
+	if p.failWrite() {
+		return errInjected
+	}
 	err := p.KeyValueStore.DeleteRange(a, b)
 	if err == nil {
 		p.onWrite()
@@ -105,6 +183,9 @@ func (p *proxy) DeleteRange(a, b []byte) error {
 	return err
 }
 func (p *proxy) Update(fn func(db.IndexedBatch) error) error {
+	if p.failWrite() {
+		return errInjected
+	}
 	err := p.KeyValueStore.Update(fn)
 	if err == nil {
 		p.onWrite()
@@ -112,6 +193,9 @@ func (p *proxy) Update(fn func(db.IndexedBatch) error) error {
 	return err
 }
 func (p *proxy) Write(fn func(db.Batch) error) error {
+	if p.failWrite() {
+		return errInjected
+	}
 	err := p.KeyValueStore.Write(fn)
 	if err == nil {
 		p.onWrite()
@@ -125,6 +209,9 @@ type pbatch struct {
 }
 
 func (b *pbatch) Write() error {
+	if b.p.failWrite() {
+		return errInjected
+	}
 	err := b.Batch.Write()
 	if err == nil {
 		b.p.onWrite()
@@ -138,6 +225,9 @@ type pibatch struct {
 }
 
 func (b *pibatch) Write() error {
+	if b.p.failWrite() {
+		return errInjected
+	}
 	err := b.IndexedBatch.Write()
 	if err == nil {
 		b.p.onWrite()
@@ -151,6 +241,14 @@ func (p *proxy) NewIndexedBatch() db.IndexedBatch {
 }
 func (p *proxy) NewIndexedBatchWithSize(n int) db.IndexedBatch {
 	return &pibatch{p.KeyValueStore.NewIndexedBatchWithSize(n), p}
+}
+
+// the state before the failed write = the last crash copy (or the database itself when none)
+func (p *proxy) copiesLastOrStart(m *memory.Database) *memory.Database {
+	if len(p.copies) == 0 {
+		return m
+	}
+	return p.copies[len(p.copies)-1]
 }
 
 func dump(m *memory.Database) string {
@@ -256,11 +354,14 @@ func (s *stub) Migrate(ctx context.Context, d db.KeyValueStore, _ *networks.Netw
 		}
 		old := readProg(d, s.idx)
 		if s.FailAt == p+1 {
-			hx.Must(d.Put(progKey(s.idx), []byte(strconv.Itoa(old))))
+			_ = d.Put(progKey(s.idx), []byte(strconv.Itoa(old)))
 			ret("F")
 			return nil, errors.New("stub failure")
 		}
-		hx.Must(d.Put(progKey(s.idx), []byte(strconv.Itoa(max(old, p+1)))))
+		if err := d.Put(progKey(s.idx), []byte(strconv.Itoa(max(old, p+1)))); err != nil {
+			ret("F") // the store failed (injected I/O error): return it, nothing stored
+			return nil, fmt.Errorf("stub write: %w", err)
+		}
 		if p+1 >= s.Total {
 			ret("D")
 			return nil, nil
@@ -329,6 +430,7 @@ type RBoot struct {
 	Enabled uint64 // optional flags
 	Cancel  int    // -1 never, else cancelled after that many writes
 	Crash   int    // -1 none, else the process dies after that many writes
+	Fault   int    // 0 none, else the Fault-th write attempt of this start fails once (I/O error)
 }
 type RCase struct {
 	Stubs []StubSpec
@@ -370,6 +472,7 @@ func runR(c *hx.Ctx, or *hx.Oracle, rc RCase) (string, string, []string) {
 		ctx, cancel := context.WithCancel(context.Background())
 		px.cancel = cancel
 		px.cancelAtWrite = b.Cancel
+		px.faultAtWrite = b.Fault
 		if b.Cancel == 0 {
 			cancel()
 		}
@@ -425,7 +528,11 @@ func runR(c *hx.Ctx, or *hx.Oracle, rc RCase) (string, string, []string) {
 		if b.Cancel >= 0 {
 			cancelS = strconv.Itoa(b.Cancel)
 		}
-		line := fmt.Sprintf("R %s ; 60 %x %s ; %s", strings.Join(specs, ","), b.Enabled, cancelS, start.String())
+		faultS := "-"
+		if b.Fault > 0 {
+			faultS = strconv.Itoa(b.Fault - 1)
+		}
+		line := fmt.Sprintf("R %s ; 60 %x %s %s ; %s", strings.Join(specs, ","), b.Enabled, cancelS, faultS, start.String())
 		rep := strings.Split(or.Ask(line, 1)[0], " | ")
 		if len(rep) != 5 {
 			hx.Fatalf("oracle reply %q", rep)
@@ -450,6 +557,14 @@ func runR(c *hx.Ctx, or *hx.Oracle, rc RCase) (string, string, []string) {
 			what, mk = fmt.Sprintf("boot %d: crash points model=%v real=%v", bi, mtrace, trace), "crashpoints"
 		}
 		tags = append(tags, "r:"+res)
+		if px.faulted {
+			tags = append(tags, "r:io-error-fired")
+			// property predicate on the real observation: the start that hit the error returns an
+			// error and sets no bit / stores no token after it
+			if res != "failed" || final.Cur != readRState(px.copiesLastOrStart(mem), nAll).Cur {
+				return fmt.Sprintf("boot %d: injected write error but result=%s cur %b", bi, res, final.Cur), "runner:io-error-not-final", tags
+			}
+		}
 		if rep[4] == "f" {
 			tags = append(tags, "r:applied-early(ill-behaved stub)")
 		}
@@ -516,8 +631,11 @@ func genR(r *hx.RNG) RCase {
 		if r.Chance(12) && n > 1 {
 			bt.NMig = 1 + r.Intn(n-1)
 		}
-		if r.Chance(55) {
+		switch k := r.Intn(100); {
+		case k < 40:
 			bt.Cancel = r.Intn(14)
+		case k < 65:
+			bt.Fault = 1 + r.Intn(12)
 		}
 		if r.Chance(30) {
 			bt.Crash = 1 + r.Intn(10)
@@ -608,6 +726,8 @@ type spy struct {
 	log      *[]string
 	bad      *[]string
 	onBefore func(idx int, st []byte)
+	px       *proxy
+	win      map[int][4]int // idx -> freads, fwrites at Migrate entry / exit
 }
 
 func (s *spy) Before(st []byte) error {
@@ -622,7 +742,21 @@ func (s *spy) Before(st []byte) error {
 	return s.inner.Before(st)
 }
 func (s *spy) Migrate(ctx context.Context, d db.KeyValueStore, n *networks.Network, l log.StructuredLogger) ([]byte, error) {
+	var w [4]int
+	if s.px != nil {
+		s.px.mu.Lock()
+		s.px.curMig = s.idx
+		w[0], w[1] = s.px.freads, s.px.fwrites
+		s.px.mu.Unlock()
+	}
 	st, err := s.inner.Migrate(ctx, d, n, l)
+	if s.px != nil {
+		s.px.mu.Lock()
+		s.px.curMig = -1
+		w[2], w[3] = s.px.freads, s.px.fwrites
+		s.px.mu.Unlock()
+		s.win[s.idx] = w
+	}
 	o := ""
 	switch {
 	case st == nil && err == nil:
@@ -651,6 +785,8 @@ type cfg struct {
 	// cancel the context at the cancelReads-th read after Before of migration cancelMig-1 (0 = off)
 	cancelMig   int
 	cancelReads int
+	// I/O error injection: the faultWrite-th write attempt / faultRead-th read of this start fails once
+	faultWrite, faultRead int
 }
 
 // abstraction of the commitments / state updates to the model's sdb
@@ -674,6 +810,7 @@ func abstractSDL(m *memory.Database) string {
 }
 
 type runOut struct {
+	win    map[int][4]int
 	sdlPre string // "<checkpoint> <sdb>" when statedifflength was invoked
 	res    string
 	err    error
@@ -683,7 +820,7 @@ type runOut struct {
 	merged []string
 }
 
-func realRegistry(c cfg, evlog, bad *[]string, onBefore func(int, []byte)) *migration.Registry {
+func realRegistry(c cfg, evlog, bad *[]string, onBefore func(int, []byte), px *proxy, win map[int][4]int) *migration.Registry {
 	reg := migration.NewRegistry()
 	retained := c.retained
 	if retained == 0 {
@@ -693,7 +830,7 @@ func realRegistry(c cfg, evlog, bad *[]string, onBefore func(int, []byte)) *migr
 		if i >= c.nmig {
 			return
 		}
-		s := &spy{inner: m, idx: i, log: evlog, bad: bad, onBefore: onBefore}
+		s := &spy{inner: m, idx: i, log: evlog, bad: bad, onBefore: onBefore, px: px, win: win}
 		if optional {
 			reg.WithOptional(s, enabled, name)
 		} else {
@@ -715,7 +852,9 @@ func runReal(m *memory.Database, c cfg, keep bool, cancelAtWrite, cancelAtRead i
 	defer cancel()
 	px.cancel = cancel
 	px.cancelAtWrite, px.cancelAtRead = cancelAtWrite, cancelAtRead
+	px.faultAtWrite, px.faultAtRead = c.faultWrite, c.faultRead
 	out.px = px
+	out.win = map[int][4]int{}
 	reg := realRegistry(c, &out.log, &out.bad, func(idx int, st []byte) {
 		if idx == 3 {
 			// the state the statedifflength backfill starts from, for the model (sdl_migrate)
@@ -730,7 +869,7 @@ func runReal(m *memory.Database, c cfg, keep bool, cancelAtWrite, cancelAtRead i
 			px.cancelAtRead = px.reads + c.cancelReads
 			px.mu.Unlock()
 		}
-	})
+	}, px, out.win)
 	before, _ := migration.GetSchemaMetadata(m)
 	runner, newErr := migration.NewRunner(reg, px, &networks.Sepolia, log.NewNopZapLogger())
 	var runErr error
@@ -1005,6 +1144,117 @@ func (b *bctx) checkRun(o runOut, sched string) {
 	b.c.Hist["b:"+sched+":"+o.res]++
 }
 
+var migNames = []string{"blocktransactions", "historyprunner", "headstate", "statedifflength"}
+
+// runFaults: all four registered migrations enabled (historyprunner in its no-op configuration); the
+// store returns an error once at a sampled read inside each migration's Migrate call or at any
+// write attempt; Run is observed; restarts on the healthy store run to completion. Predicate: the
+// completed database is exactly the one obtained without any error (full dump + per-block
+// accessors + StateDiffLength), i.e. the failed start neither marked an unfinished migration
+// applied nor saved a resume point that skips work.
+func (b *bctx) runFaults(r *hx.RNG, budget int) {
+	c, w, bc := b.c, b.w, b.w.bc
+	rp := map[string]any{"kind": "B", "case": BCase{Counts: bc.Counts, Variant: bc.Variant, Prune: bc.Prune, Only: "io-error"}}
+	start := w.oldDB.Copy()
+	hx.Must(core.WriteL1Head(start, &core.L1Head{BlockNumber: uint64(w.height), BlockHash: &felt.Zero, StateRoot: &felt.Zero}))
+	all := cfg{nmig: 4, newState: true, prune: true}
+	ref := start.Copy()
+	o := runReal(ref, all, false, 0, 0)
+	if o.res != "ok" {
+		c.Violation("io-error:reference-run-failed", fmt.Sprintf("counts=%v variant=%s: %v", bc.Counts, bc.Variant, o.err), rp, false)
+		return
+	}
+	refDmp := dump(ref)
+	refSym, refBlk := w.preserved(ref)
+	type pt struct {
+		read, write int
+		what        string
+	}
+	var pts []pt
+	for k := 1; k <= o.px.fwrites; k++ {
+		pts = append(pts, pt{write: k, what: fmt.Sprintf("write attempt %d of %d", k, o.px.fwrites)})
+	}
+	per := 2 + budget/4
+	for idx := 0; idx < 4; idx++ {
+		win, ok := o.win[idx]
+		if !ok || win[2] <= win[0] {
+			continue
+		}
+		for j := 0; j < per; j++ {
+			n := win[0] + 1 + r.Intn(win[2]-win[0])
+			pts = append(pts, pt{read: n, what: fmt.Sprintf("read %d (reads %d..%d belong to %s)", n, win[0]+1, win[2], migNames[idx])})
+		}
+	}
+	pts = append(pts, pt{read: 1, what: "read 1 (NewRunner)"})
+	for _, p := range pts {
+		m := start.Copy()
+		cf := all
+		cf.faultRead, cf.faultWrite = p.read, p.write
+		o1 := runReal(m, cf, false, 0, 0)
+		if !o1.px.faulted {
+			continue // scheduling moved the point past the end of the run
+		}
+		where := "runner"
+		if o1.px.faultMig >= 0 {
+			where = migNames[o1.px.faultMig]
+		}
+		c.Hist["b:io-error:"+where+":"+o1.res]++
+		b.checkRunQuiet(o1, "io-error", rp)
+		md1, _ := migration.GetSchemaMetadata(m)
+		tok1 := "none"
+		if o1.px.faultMig >= 0 {
+			if t, err := migration.GetIntermediateState(m, uint8(o1.px.faultMig)); err == nil {
+				tok1 = fmt.Sprintf("%x", t)
+			}
+		}
+		desc := fmt.Sprintf("counts=%v variant=%s: injected error at %s, hit %s; that start: Run=%s (%v), CurrentVersion=%b, token of that migration=%s, log %v",
+			bc.Counts, bc.Variant, p.what, where, o1.res, o1.err, md1.CurrentVersion, tok1, o1.log)
+		var o2 runOut
+		for try := 0; try < 3; try++ {
+			o2 = runReal(m, all, false, 0, 0)
+			b.checkRunQuiet(o2, "io-error-restart", rp)
+			if o2.res == "ok" {
+				break
+			}
+		}
+		kind := "read"
+		if p.write > 0 {
+			kind = "write"
+		}
+		c.Count(fmt.Sprintf("B:io:%v:%s:%d:%d", bc.Counts, bc.Variant, p.read, p.write), true)
+		if o2.res != "ok" {
+			c.Violation(fmt.Sprintf("io-error:%s:%s:restart-never-completes", kind, where), fmt.Sprintf("%s; restart: %s %v", desc, o2.res, o2.err), rp, false)
+			continue
+		}
+		sym, blk := w.preserved(m)
+		if sym != "" && !(sym == refSym && blk == refBlk) {
+			class := fmt.Sprintf("io-error:%s:%s:%s", kind, where, sym)
+			if sym == "unreadable" && w.rangeEmpty(blk) {
+				class = "blocktransactions:resume-skips-empty-range:block-unreadable" // same defect, other interruption kind
+			}
+			c.Violation(class, fmt.Sprintf("%s; after the restart block %d: %s", desc, blk, sym), rp, false)
+			continue
+		}
+		if dump(m) != refDmp {
+			c.Violation(fmt.Sprintf("io-error:%s:%s:final-db-differs", kind, where), desc+"; the completed database differs from the one obtained without the error", rp, false)
+		}
+	}
+}
+
+// checkRun without the histogram line (used by the fault schedules)
+func (b *bctx) checkRunQuiet(o runOut, sched string, rp any) {
+	for _, s := range o.bad {
+		b.c.Violation("well-behaved:"+sched, fmt.Sprintf("counts=%v: %s", b.w.bc.Counts, s), rp, false)
+	}
+	l := "-"
+	if len(o.merged) > 0 {
+		l = strings.Join(o.merged, ",")
+	}
+	if b.or.Ask("AD "+l, 1)[0] != "t" {
+		b.c.Violation("applied-before-complete:"+sched, fmt.Sprintf("counts=%v: log %s", b.w.bc.Counts, l), rp, false)
+	}
+}
+
 func runB(c *hx.Ctx, or *hx.Oracle, r *hx.RNG, bc BCase, budget int) {
 	w := buildWorld(bc)
 	b := &bctx{c: c, or: or, w: w}
@@ -1121,6 +1371,11 @@ func runB(c *hx.Ctx, or *hx.Oracle, r *hx.RNG, bc BCase, budget int) {
 			}
 			c.Count(fmt.Sprintf("%s:cancel:%d:%d", key, pt.w, pt.r), true)
 		}
+	}
+
+	// ---- I/O errors: the n-th read / write attempt fails once, for every registered migration ----
+	if want("io-error") {
+		b.runFaults(r, budget)
 	}
 
 	// ---- optional migrations toggled across restarts, opt-out and downgrade refused ----
